@@ -186,6 +186,7 @@ class Interp:
     def __init__(self, ctx=None):
         self.ctx = ctx or Ctx()
         self.ops = Ops(self.ctx)
+        self.ops.interp = self
         self.modules = {}
         self.contracts = {}        # qualname -> callable(interp, fv, args, kwargs) or None
         self.files_read = {}
@@ -925,6 +926,9 @@ class Interp:
             raise_('IndexError', 'index out of range')
         if isinstance(i, Sym) and i.kind == 'real':
             raise_('TypeError', 'indices must be integers')
+        if isinstance(i, (str, tuple, list, dict)) or i is None or \
+                (isinstance(i, Sym) and i.kind == 'str'):
+            raise_('TypeError', 'indices must be integers or slices')
         raise Unsupported('index %r' % (i,))
 
     def _slice(self, s, n):
